@@ -274,6 +274,19 @@ def d4_rewind(ctx, rm: REModel):
     # suspension: helper plan order
     ss = rm.handler("_start_suspender")
     helper = rm.repo.func(MOD, f"{CLS}._start_suspender.suspender_helper_inner_plan")
+    # what the helper yields, in order; the operands are classified by where their value comes from (followed through the
+    # single assignments of _start_suspender), not by what the locals are called
+    def origin(e):
+        x = A.norm(q.expand(ss.node, e))
+        if "pre_plan" in x and "post_plan" not in x:
+            return "pre-plan"
+        if "post_plan" in x and "pre_plan" not in x:
+            return "post-plan"
+        if x in ("self._rewind()",):
+            return "replay"
+        if x == "self.rewindable":
+            return "saved"
+        return x
     order = []
     for s in helper.node.body:
         for n in A.walk_local(s):
@@ -281,17 +294,22 @@ def d4_rewind(ctx, rm: REModel):
                 cmd = A.const_str(n.value.args[0])
                 extra = ""
                 if cmd == "rewindable" and len(n.value.args) >= 3:
-                    extra = ":" + A.norm(n.value.args[2])
-                order.append(cmd + extra)
+                    extra = ":" + origin(n.value.args[2])
+                if not (order and order[-1] == cmd + extra == "wait_for"):
+                    order.append(cmd + extra)
             if isinstance(n, ast.YieldFrom):
-                order.append("yield from " + A.norm(n.value))
-    want = ["rewindable:False", "yield from ensure_generator(pre_plan)", "wait_for", "_resume_from_suspender",
-            "yield from ensure_generator(post_plan)", "rewindable:was_rewindable", "yield from rewind_plan"]
+                order.append("yield from " + origin(n.value))
+    want = ["rewindable:False", "yield from pre-plan", "wait_for", "_resume_from_suspender",
+            "yield from post-plan", "rewindable:saved", "yield from replay"]
     ok = order == want
     ctx.ob("C04.D4-suspender-helper-order", cname(helper, None, "non-rewindable pre-plan, wait, resume, post-plan, restore, replay"), ok,
            "" if ok else f"helper plan yields {order}", nontrivial=True, where=where(helper, helper.node))
     txt = A.norm(ss.node)
-    ok = "rewind_plan = self._rewind()" in txt and "was_rewindable = self.rewindable" in txt
+    # both are taken in _start_suspender itself (before the helper generator is even created), the rewind first
+    seq_ss = [x for x in ss.node.body if isinstance(x, ast.Assign)]
+    i_rw_ = next((i for i, x in enumerate(seq_ss) if A.norm(x.value) == "self._rewind()"), None)
+    i_wr_ = next((i for i, x in enumerate(seq_ss) if A.norm(x.value) == "self.rewindable"), None)
+    ok = i_rw_ is not None and i_wr_ is not None
     ctx.ob("C04.D4-suspender-helper-order", cname(ss, None, "rewind_plan and was_rewindable captured before the helper is built"), ok,
            "" if ok else "the suspension no longer captures the replay plan / rewindable state", where=where(ss, ss.node))
 
